@@ -386,16 +386,18 @@ class InteractionsEncoder:
         #WARNING: You can find three existing performance tests in test_performance.
         if not values: return []
 
-        starts = [1]*len(values)
+        #starts[i] is the index in terms[d] of the first degree d term made only of values[i:]
+        starts = [0]*len(values)
         terms  = [['']] if isinstance(values[0],str) else [[1]]
 
         for d in range(degree):
             if isinstance(values[0],str):
-                terms.append([v+t for v,s in zip(values,starts) for t in terms[d][(s-1):]])
+                terms.append([v+t for v,s in zip(values,starts) for t in terms[d][s:]])
             else:
-                terms.append([v*t for v,s in zip(values,starts) for t in terms[d][(s-1):]])
+                terms.append([v*t for v,s in zip(values,starts) for t in terms[d][s:]])
 
-            starts = list(accumulate(starts[:1]+starts[-1:]+starts[1:-1]))
+            n = len(terms[d])
+            starts = list(accumulate([0]+[n-s for s in starts[:-1]]))
 
         return terms
 
